@@ -14,6 +14,7 @@ from .. import terms as T
 from . import common as cm
 from .c06 import feedable_from_source
 
+H = 'connection.H2Connection.'
 IN_FLIGHT = ['RECV_HEADERS', 'RECV_INFORMATIONAL_HEADERS', 'RECV_DATA',
              'RECV_WINDOW_UPDATE', 'RECV_RST_STREAM', 'RECV_PUSH_PROMISE',
              'RECV_ALTERNATIVE_SERVICE', 'RECV_END_STREAM']
@@ -32,6 +33,29 @@ def run(ctx, eng):
     reset_states = [s for s in order if s.cb == 'SEND_RST_STREAM']
     ctx.record('reset_closed_states', len(reset_states))
     ctx.floor('reset_closed_states', 3)
+    # every local reset is remembered as one: wherever SEND_RST_STREAM is
+    # accepted the machine ends CLOSED with closed_by = SEND_RST_STREAM
+    # (otherwise the frames racing that reset are judged as if the stream
+    # had ended normally)
+    bad = {}
+    n_rst = 0
+    for s, inp, r in trans:
+        if inp != 'SEND_RST_STREAM' or r[0] != 'ok':
+            continue
+        n_rst += 1
+        nxt = r[2]
+        if nxt.st != 'CLOSED' or nxt.cb != 'SEND_RST_STREAM':
+            bad.setdefault(s.st, set()).add('%s/closed_by=%s' % (nxt.st,
+                                                                  nxt.cb))
+    for st in sorted({s.st for s, inp, r in trans
+                      if inp == 'SEND_RST_STREAM' and r[0] == 'ok'}):
+        cell = fsm.stream.cells.get((st, 'SEND_RST_STREAM'))
+        ctx.ob('FSM.reset-record', 'stream', '%s|SEND_RST_STREAM' % st,
+               st not in bad, 'a local reset must end in CLOSED with '
+               'closed_by=SEND_RST_STREAM%s' % (
+                   ' (found %s)' % sorted(bad[st]) if st in bad else ''),
+               node=cell[2] if cell else fsm.stream.node)
+    ctx.require(n_rst >= 5, 'no accepted SEND_RST_STREAM transition found')
     for inp in IN_FLIGHT:
         bad = []
         for s in reset_states:
@@ -80,49 +104,7 @@ def run(ctx, eng):
            'else StreamClosedError (seen %s)' % {
                k: sorted(x or '-' for x in v) for k, v in kinds.items()},
            node=fi.node)
-    # handlers: which lookup, tolerated exceptions
-    contracts = {
-        '_receive_data_frame': ('_get_stream_by_id', {'StreamClosedError'}),
-        '_receive_window_update_frame': ('_get_stream_by_id',
-                                         {'StreamClosedError'}),
-        '_receive_rst_stream_frame': ('_get_stream_by_id',
-                                      {'NoSuchStreamError'}),
-        '_receive_push_promise_frame': ('_get_stream_by_id',
-                                        {'NoSuchStreamError'}),
-        '_receive_alt_svc_frame': ('_get_stream_by_id',
-                                   {'NoSuchStreamError',
-                                    'StreamClosedError'}),
-        '_receive_headers_frame': ('_get_or_create_stream', set()),
-        '_receive_naked_continuation': ('_get_stream_by_id', set()),
-    }
-    for name, (lookup, tolerated) in sorted(contracts.items()):
-        fi = eng.m.func(H + name)
-        paths = eng.I.run(fi)
-        uses = 0
-        caught = set()
-        argok = True
-        for p in paths:
-            for e in cm.calls_to(p, lookup):
-                uses += 1
-                if not e.args or cm.attr_chain(e.args[0]) != \
-                        'frame.stream_id':
-                    argok = False
-            for e in p.events:
-                if e.kind == 'catch' and e.frame == fi.qual:
-                    org = e.get('origin')
-                    caught |= set(e.names)
-        # only classes the lookup can raise matter
-        caught &= {'NoSuchStreamError', 'StreamClosedError',
-                   'StreamIDTooLowError', 'ProtocolError'}
-        exp = set(tolerated)
-        if 'NoSuchStreamError' in exp:
-            exp.add('StreamClosedError')      # subclass
-        ctx.ob('FSM.layer3', fi.qual, 'stream lookup contract',
-               uses > 0 and argok and caught == exp,
-               'looks the stream up with %s(frame.stream_id) and tolerates '
-               '%s (found: %d uses, tolerates %s)' % (
-                   lookup, sorted(exp) or 'nothing', uses, sorted(caught)),
-               node=fi.node)
+    check_lookup_contracts(ctx, eng)
     # ---- (a) ORD: no connection-level refusal before the classification
     fi = eng.m.func(H + '_receive_headers_frame')
     paths = eng.I.run(fi)
@@ -211,6 +193,7 @@ def run(ctx, eng):
                node=lst[0][2].node)
     ctx.record('push_refusal_sites', len(sites))
     ctx.floor('push_refusal_sites', 2)
+    check_push_leniency(ctx, eng)
     # ---- (c) DATA refill
     fi = eng.m.func(H + '_receive_data_frame')
     bad = []
@@ -264,3 +247,89 @@ def run(ctx, eng):
            'with its closed_by', node=fi.node)
     ctx.assume('schedules as such are not enumerated; the bound of '
                '_closed_streams is taken as documented')
+
+
+def check_push_leniency(ctx, eng):
+    """A PUSH_PROMISE on a parent that is gone from the stream table is
+    refused quietly (RST_STREAM on the promised id) only when WE reset the
+    parent; a parent the peer reset, or one that ended, is a connection
+    error (RFC 7540 5.1, 6.6).  Shared by C06, C20 and C22."""
+    fi = eng.m.func(H + '_receive_push_promise_frame')
+    bad = []
+    n = 0
+    for p in eng.I.run(fi):
+        if p.exit == 'raise':
+            continue
+        if not any(x.kind == 'catch' and 'NoSuchStreamError' in x.names
+                   for x in p.events):
+            continue
+        n += 1
+        ok = False
+        for e in p.events:
+            if e.kind != 'assume' or e.cond[0] != 'eq':
+                continue
+            a, b = e.cond[1], e.cond[2]
+            for x, y in ((a, b), (b, a)):
+                if cm.enum_name(x) == 'SEND_RST_STREAM' and y[0] == 'call' \
+                        and y[1].endswith('_stream_closed_by') and \
+                        cm.attr_chain(y[2][-1]) == 'frame.stream_id':
+                    ok = True
+        if not ok:
+            conds = [cm.show0(e.cond) for e in p.events
+                     if e.kind == 'assume'][1:]
+            bad.append('refused quietly under %s' % (conds or 'no condition'))
+    ctx.ob('FSM.push-leniency', fi.qual, 'forgotten parent: quiet refusal '
+           'only after a local reset', n > 0 and not bad,
+           '; '.join(sorted(set(bad))) or 'the quiet path requires '
+           '_stream_closed_by(frame.stream_id) == SEND_RST_STREAM; anything '
+           'else is a connection error', node=fi.node)
+
+
+def check_lookup_contracts(ctx, eng):
+    """Which lookup each frame handler uses and which lookup failures it
+    tolerates: a frame on a forgotten (closed) stream may be tolerated where
+    the RFC says so, a frame on an idle stream never is.  Shared by C06 and
+    C20."""
+    # handlers: which lookup, tolerated exceptions
+    contracts = {
+        '_receive_data_frame': ('_get_stream_by_id', {'StreamClosedError'}),
+        '_receive_window_update_frame': ('_get_stream_by_id',
+                                         {'StreamClosedError'}),
+        '_receive_rst_stream_frame': ('_get_stream_by_id',
+                                      {'NoSuchStreamError'}),
+        '_receive_push_promise_frame': ('_get_stream_by_id',
+                                        {'NoSuchStreamError'}),
+        '_receive_alt_svc_frame': ('_get_stream_by_id',
+                                   {'NoSuchStreamError',
+                                    'StreamClosedError'}),
+        '_receive_headers_frame': ('_get_or_create_stream', set()),
+        '_receive_naked_continuation': ('_get_stream_by_id', set()),
+    }
+    for name, (lookup, tolerated) in sorted(contracts.items()):
+        fi = eng.m.func(H + name)
+        paths = eng.I.run(fi)
+        uses = 0
+        caught = set()
+        argok = True
+        for p in paths:
+            for e in cm.calls_to(p, lookup):
+                uses += 1
+                if not e.args or cm.attr_chain(e.args[0]) != \
+                        'frame.stream_id':
+                    argok = False
+            for e in p.events:
+                if e.kind == 'catch' and e.frame == fi.qual:
+                    org = e.get('origin')
+                    caught |= set(e.names)
+        # only classes the lookup can raise matter
+        caught &= {'NoSuchStreamError', 'StreamClosedError',
+                   'StreamIDTooLowError', 'ProtocolError'}
+        exp = set(tolerated)
+        if 'NoSuchStreamError' in exp:
+            exp.add('StreamClosedError')      # subclass
+        ctx.ob('FSM.layer3', fi.qual, 'stream lookup contract',
+               uses > 0 and argok and caught == exp,
+               'looks the stream up with %s(frame.stream_id) and tolerates '
+               '%s (found: %d uses, tolerates %s)' % (
+                   lookup, sorted(exp) or 'nothing', uses, sorted(caught)),
+               node=fi.node)
